@@ -185,10 +185,22 @@ static void fill_cfg(cfg_t *c)
 	    if (i / n == i % n)
 		s[i] += 0.15 + 0.1 * I;
 	}
+	/* entries with special angles in the polar formats: exactly real
+	   positive, exactly real negative, exactly imaginary */
+	if (f == 0) {
+	    s[0] = 0.5;
+	    s[n * n - 1] = n > 1 ? -0.25 : 0.5;
+	    if (n > 1) {
+		s[1] = 0.375 * I;
+		s[n] = -0.375 * I;
+	    }
+	}
 	if (c->type == VPT_ZIN) {
 	    for (int p = 0; p < n; ++p)
 		c->m[f][p] = (40.0 + 15.0 * p + (30.0 - 22.0 * p) * I) *
 		    (1.0 + 0.1 * f) * c->mag;
+	    if (f == 0)
+		c->m[f][0] = 40.0 * c->mag;	/* purely resistive */
 	} else if (c->type == VPT_S) {
 	    for (int i = 0; i < n * n; ++i)
 		c->m[f][i] = s[i] * c->mag;
